@@ -197,7 +197,10 @@ def _gen_repair(rng):
     slack = {a: (rng.randint(0, 14) if tight else 100000) for a in agents}
     return dict(kind="repair", spec=spec, agents=agents, comps=comps, hosts=hosts, replicas=replicas,
                 leaving=leaving, fp=fp, x=x, slack=slack, repair_only=rng.random() < 0.1,
-                shuffle=rng.randrange(1 << 30))
+                shuffle=rng.randrange(1 << 30),
+                # the directory's agent_removed notice reaches the candidates while their repair
+                # DCOP is still running (repair slower than the 0.5 s the departed agent waits)
+                notice=rng.random() < 0.6)
 
 
 def gen(rng, n, tier):
@@ -472,7 +475,7 @@ def _repair(case):
     from pydcop.infrastructure.communication import InProcessCommunicationLayer
     from pydcop.infrastructure.computations import build_computation
     from pydcop.infrastructure.discovery import Discovery, Directory, PublishComputationMessage, \
-        UnPublishComputationMessage
+        UnPublishComputationMessage, PublishReplicaMessage
     from pydcop.dcop.objects import AgentDef
     from pydcop.reparation import removal as R
     _random.seed(case["shuffle"])
@@ -527,11 +530,44 @@ def _repair(case):
                 if a in case["replicas"][c]:
                     agent.replication_comp.replicas[c] = defs[c]
                     agent.replication_comp._hosted_replicas[c] = (case["hosts"][c], case["fp"][c])
+            # what the agent's own Discovery knows of its candidates: their (departed) host and
+            # its own replica, published when it accepted the replica
+            for c in info:
+                agent.discovery.register_computation(c, case["hosts"][c], "addr_" + case["hosts"][c],
+                                                     publish=False)
+                agent.discovery.register_replica(c, a, publish=False)
+            sent = []
+            agent.discovery.discovery_computation.send_to_directory = lambda m_, _s=sent: _s.append(m_)
             del calls[:]
             cbv = agent.setup_repair(info)
             o = dict(agent=a, info=[[c, sorted(i[0])] for c, i in info.items()],
                      used=used,
                      cbv=[[list(k), v.name] for k, v in cbv.items()], hosted=[], capacity=None)
+            # one binary variable per name in the repair DCOP this agent built: objects carrying
+            # the same name must be the same variable (Variable.__eq__) in every constraint
+            by_name = {}
+            for reg in agent._repair_computations.values():
+                node = reg.computation.computation_def.node
+                for v in [node.variable] + [v for cst in node.constraints for v in cst.dimensions]:
+                    by_name.setdefault(v.name, [])
+                    if not any(v == w for w in by_name[v.name]):
+                        by_name[v.name].append(v)
+            o["var_clash"] = sorted(n for n, l in by_name.items() if len(l) > 1)
+            o["notice_error"] = None
+            if case.get("notice"):
+                for g in leaving:
+                    try:
+                        agent.replication_comp._on_agent_event("agent_removed", g, None)
+                    except Exception as e:
+                        o["notice_error"] = [type(e).__name__, str(e)[:200]]
+            o["eval_error"] = None
+
+            def value(rel, asg, _o=o):
+                try:
+                    return _intval(rel(**asg))
+                except (KeyError, AttributeError) as e:      # what MGM2 would hit in the agent's thread
+                    _o["eval_error"] = [rel.name, type(e).__name__, str(e)[:100]]
+                    return 0
             for call in calls:
                 rel = call[-1]
                 if call[0] == "hosted":
@@ -539,11 +575,11 @@ def _repair(case):
                     asg = {n: x.get(tuple(k), 0) for k, n in items}
                     o["hosted"].append([call[1], [k for k, _ in items], [n for _, n in items],
                                         [v.name for v in rel.dimensions] == [n for _, n in call[2]],
-                                        _intval(rel(**asg))])
+                                        value(rel, asg)])
                 else:
                     asg = {n: x.get(tuple(k), 0) for k, n in call[3]}
                     o["capacity"] = [call[2], [k for k, _ in call[3]], [v.name for v in rel.dimensions],
-                                     _intval(rel(**asg))]
+                                     value(rel, asg)]
             reported = []
 
             def on_done(sel, metrics=None, _r=reported):
@@ -568,6 +604,8 @@ def _repair(case):
                     o["after_report"] = [type(e).__name__, str(e)[:200]]
                     break
             o["reported"] = reported
+            o["unrep"] = sorted([m_.replica, m_.agent] for m_ in sent
+                                if m_.type == "publish_replica" and not m_.publish)
             o["left_repair"] = sorted(c.name for c in agent.computations() if c.name.startswith("B"))
             o["own_after"] = sorted(c.name for c in agent.computations() if c.name in before)
             o["own"] = sorted(own)
@@ -596,6 +634,9 @@ def _repair(case):
         directory.register_agent(a, "addr_" + a)
     for c in case["comps"]:
         directory.register_computation(c, case["hosts"][c], "addr_" + case["hosts"][c])
+    for c in case["comps"]:
+        for a in case["replicas"][c]:
+            directory.register_replica(c, a)
     init = [[c, a] for c, a in directory._computations_data.items()]
     # what a departing agent really un-publishes: the REAL Agent._on_stop on an agent holding
     # its computations (its Discovery's unregister_* calls are recorded, the 0.5 s nap skipped)
@@ -623,6 +664,12 @@ def _repair(case):
             ops.append(["reg", c, o["agent"]])
         for k, n in o["cbv"]:            # the repair computations come and go as well
             ops.append(["reg", n, o["agent"]])
+    # every candidate drops (and un-publishes) its replica of every computation it was candidate
+    # for, selected or not; the list is the generator's ground truth, not what the agents sent
+    for c in orphaned:
+        for a in case["replicas"][c]:
+            if a not in leaving:
+                ops.append(["unrep", c, a])
     rnd.shuffle(ops)
     for o in obs:
         for k, n in o["cbv"]:
@@ -632,10 +679,13 @@ def _repair(case):
         if op[0] == "reg":
             dc._on_publish_computation("_discovery_" + op[2],
                                        PublishComputationMessage(op[1], op[2], "addr_" + op[2]))
+        elif op[0] == "unrep":
+            dc._on_publish_replica("_discovery_" + op[2], PublishReplicaMessage(op[1], op[2], False))
         else:
             dc._on_unpublish_computation("_discovery_x", UnPublishComputationMessage(op[1], op[2]))
     out["dir"] = dict(init=init, ops=ops, final=[[c, a] for c, a in directory._computations_data.items()],
-                      disc={c: _agent_of(dd, c) for c in case["comps"]})
+                      disc={c: _agent_of(dd, c) for c in case["comps"]},
+                      replicas={c: sorted(dd._replicas_data.get(c, ())) for c in case["comps"]})
     return out
 
 
@@ -890,6 +940,18 @@ def _repair_problems(case, o):
         elif ao.get("left_repair") or ao.get("own_after") != ao.get("own"):
             out.append((None, "%s after its repair: repair computations left %r, own computations %r (had %r)" % (
                 a, ao.get("left_repair"), ao.get("own_after"), ao.get("own"))))
+        if ao.get("var_clash"):
+            out.append((None, "%s: the repair DCOP holds two different variables named %r (the constraints of one "
+                              "computation disagree on what the variable is)" % (a, ao["var_clash"])))
+        if ao.get("eval_error"):
+            out.append((None, "%s: constraint %s of its repair DCOP cannot be evaluated any more (%s %s)%s" % (
+                a, ao["eval_error"][0], ao["eval_error"][1], ao["eval_error"][2],
+                " after the agent_removed notice" if case.get("notice") else "")))
+        if ao.get("notice_error"):
+            out.append((None, "%s: the agent_removed notice during the repair raised %r" % (a, ao["notice_error"])))
+        if ao.get("after_report") is None and ao.get("unrep") != sorted([c, a] for c in mine):
+            out.append((None, "%s un-published the replicas %r, expected its replica of each of its candidates %r "
+                              "(the directory keeps listing it as a replica holder)" % (a, ao.get("unrep"), mine)))
         want_sel = sorted(c for c in mine if x.get((c, a), 0) == 1)
         if len(ao["reported"]) != 1 or sorted(ao["reported"][0]) != want_sel or ao["deployed"] != want_sel:
             out.append((None, "%s reported %r and deployed %r, its variables at 1 are %r" % (
@@ -912,6 +974,11 @@ def _repair_problems(case, o):
         out.append((None, "the departing agents un-published %r, expected every orphaned computation once, "
                           "in the name of its host" % (o.get("unpublished"),)))
     # hosting and directory afterwards
+    for c in case["comps"]:
+        want_rep = sorted(a for a in case["replicas"][c] if c not in orphaned or a in leaving)
+        if o["dir"].get("replicas", {}).get(c) != want_rep:
+            out.append((None, "directory lists %r as replica holders of %s after the repair, expected %r "
+                              "(every candidate dropped its replica)" % (o["dir"].get("replicas", {}).get(c), c, want_rep)))
     final = dict((c, a) for c, a in o["dir"]["final"])
     for c in case["comps"]:
         if c not in orphaned:
@@ -989,6 +1056,8 @@ def _repair_term(case, o):
 def _dir_term(dr):
     ops = []
     for op in dr["ops"]:
+        if op[0] == "unrep":
+            continue            # replica table: not in the model (oracle only)
         if op[0] == "reg":
             ops.append("DReg %s %s" % (q.s(op[1]), q.s(op[2])))
         else:
